@@ -68,6 +68,30 @@ impl From<Tok> for Tok2 {
 }
 
 unsafe extern "C" fn cb_run(_data: *mut c_void) {}
+thread_local! {
+    static STATELESS_DESTROYED: RefCell<u64> = RefCell::new(0);
+}
+/// destructor of a callback that has no state: `data` is NULL, the function itself is the whole callback
+unsafe extern "C" fn cb_destroy_stateless(_data: *mut c_void) {
+    STATELESS_DESTROYED.with(|c| *c.borrow_mut() += 1);
+}
+fn stateless_destroyed() -> u64 {
+    STATELESS_DESTROYED.with(|c| *c.borrow())
+}
+/// drop one value; a stateless callback's destructor must run exactly once, nobody else's may
+fn drop_checked(val: Val, at: &str) -> Result<(), String> {
+    let stateless = matches!(val, Val::CBS(_));
+    let before = stateless_destroyed();
+    drop(val);
+    let ran = stateless_destroyed() - before;
+    if stateless && ran != 1 {
+        return Err(format!("{}: the destructor of a callback with NULL data ran {} times when the callback was dropped", at, ran));
+    }
+    if !stateless && ran != 0 {
+        return Err(format!("{}: a stateless callback's destructor ran although none was dropped", at));
+    }
+    Ok(())
+}
 unsafe extern "C" fn cb_destroy(data: *mut c_void) {
     let id = data as usize as u64;
     CB_DESTROYED.with(|l| *l.borrow_mut().entry(id).or_insert(0) += 1);
@@ -93,6 +117,8 @@ pub enum Op {
     Clone(usize),
     AsRef(usize),
     Drop(usize),
+    /// DiplomatCallback<()> without state: data == NULL, destructor present
+    NewStatelessCallback,
     /// Result with one plain-data arm and one owning arm: 0/1 Result<u32, Tok> Err/Ok, 2/3 Result<Tok, u32> Ok/Err, 4/5 Result<(), Tok> Err/Ok
     NewMixedResult(u8),
     /// a foreign-side scratch buffer, as the JS and Dart glue makes one for every string / list argument (zero bytes for an
@@ -116,6 +142,7 @@ enum Val {
     Str(Box<str>),
     OStr(DiplomatOwnedUTF8StrSlice),
     CB(DiplomatCallback<()>),
+    CBS(DiplomatCallback<()>),
     RM(Result<u32, Tok>),
     DRM(DiplomatResult<u32, Tok>),
     RN(Result<Tok, u32>),
@@ -136,6 +163,7 @@ impl Val {
             Val::Str(_) => "Box<str>",
             Val::OStr(_) => "DiplomatOwnedUTF8StrSlice",
             Val::CB(_) => "DiplomatCallback",
+            Val::CBS(_) => "DiplomatCallback (NULL data)",
             Val::RM(_) | Val::RN(_) | Val::RU(_) => "Result (one plain arm)",
             Val::DRM(_) | Val::DRN(_) | Val::DRU(_) => "DiplomatResult (one plain arm)",
         }
@@ -208,6 +236,16 @@ pub fn check(case: &Case) -> Result<(), String> {
                 let m = ViewMirror { ptr: std::ptr::null_mut(), len: 0 };
                 let v: DiplomatOwnedSlice<Tok> = unsafe { std::mem::transmute(m) };
                 pool.push(Slot { val: Val::OS(v), ids: vec![] });
+                converted_once.push(false);
+            }
+            Op::NewStatelessCallback => {
+                let cb = DiplomatCallback::<()> {
+                    data: std::ptr::null_mut(),
+                    run_callback: unsafe { std::mem::transmute::<unsafe extern "C" fn(*mut c_void), unsafe extern "C" fn(*mut c_void, ...)>(cb_run) },
+                    destructor: Some(cb_destroy_stateless),
+                };
+                label("stateless-callback");
+                pool.push(Slot { val: Val::CBS(cb), ids: vec![] });
                 converted_once.push(false);
             }
             Op::NewMixedResult(which) => {
@@ -285,6 +323,7 @@ pub fn check(case: &Case) -> Result<(), String> {
                     Val::Str(s) => Val::OStr(s.into()),
                     Val::OStr(o) => Val::Str(o.into()),
                     Val::CB(c) => Val::CB(c),
+                    Val::CBS(c) => Val::CBS(c),
                     Val::RM(r) => Val::DRM(r.into()),
                     Val::DRM(d) => Val::RM(d.into()),
                     Val::RN(r) => Val::DRN(r.into()),
@@ -378,7 +417,7 @@ pub fn check(case: &Case) -> Result<(), String> {
                 for id in ids {
                     dropped.insert(id, ());
                 }
-                drop(val);
+                drop_checked(val, &at)?;
             }
         }
         ledger_check(&dropped, &at)?;
@@ -388,7 +427,7 @@ pub fn check(case: &Case) -> Result<(), String> {
         for id in ids {
             dropped.insert(id, ());
         }
-        drop(val);
+        drop_checked(val, "at end of case")?;
     }
     ledger_check(&dropped, "at end of case (all owners dropped)")?;
     if n_convert > 0 {
@@ -421,6 +460,7 @@ pub fn strategy() -> impl Strategy<Value = Case> {
         3 => idx.prop_map(Op::Drop),
         1 => (prop_oneof![Just(0usize), Just(0usize), 1usize..40], any::<u8>()).prop_map(|(n, a)| Op::ScratchBuf(n, a)),
         3 => any::<u8>().prop_map(Op::NewMixedResult),
+        1 => Just(Op::NewStatelessCallback),
     ];
     proptest::collection::vec(op, 1..24).prop_map(|ops| Case { ops })
 }
